@@ -506,6 +506,24 @@ func runCase(c *fw.Ctx, i int) {
 		c.Count("chunks_checked", int64(len(col.Chunks)))
 		report("ChunkDocumentWithConfig", checkElementView(elemUnits, col.Chunks, c), elemUnits, col.Chunks)
 	})
+	// (2b) a chunker value reused for several documents: the second document's
+	// chunks must not depend on the first (section path, indices, ids)
+	if i%2 == 0 {
+		c.Guard("DocumentChunker.reuse", id, base, func() {
+			pspec := specFor(c.Rand("doc", i, "prevspec"), false)
+			pspec.MaxPara = 400
+			prev, _ := buildDoc(c.Rand("doc", i, "prevcontent"), pspec)
+			dc := rag.NewDocumentChunkerWithConfig(ccfg, sc)
+			if i%4 == 0 {
+				dc = rag.NewDocumentChunker()
+			}
+			dc.ChunkDocument(prev)
+			col := dc.ChunkDocument(doc)
+			c.Count("chunks_checked", int64(len(col.Chunks)))
+			c.Count("reused_chunker_runs", 1)
+			report("DocumentChunker(reused).ChunkDocument", checkElementView(elemUnits, col.Chunks, c), elemUnits, col.Chunks)
+		})
+	}
 	// (3) layout view
 	if spec.Flavour != "elements" {
 		c.Guard("Chunker.Chunk", id, base, func() {
@@ -518,6 +536,21 @@ func runCase(c *fw.Ctx, i int) {
 			}
 			c.Count("chunks_checked", int64(len(res.Chunks)))
 			report("NewChunker.Chunk", checkLayoutView(lu, res.Chunks, info.Numbers, c), lu, res.Chunks)
+			if i%2 == 1 { // the same Chunker value used again after another document
+				pspec := specFor(c.Rand("doc", i, "prevspec"), false)
+				pspec.MaxPara = 400
+				if pspec.Flavour == "elements" {
+					pspec.Flavour = "both"
+				}
+				prev, _ := buildDoc(c.Rand("doc", i, "prevcontent"), pspec)
+				ck := rag.NewChunker()
+				ck.Chunk(prev)
+				res2, err := ck.Chunk(doc)
+				if err == nil {
+					c.Count("reused_chunker_runs", 1)
+					report("NewChunker(reused).Chunk", checkLayoutView(lu, res2.Chunks, info.Numbers, c), lu, res2.Chunks)
+				}
+			}
 		})
 		c.Guard("ChunkerWithConfig.Chunk", id, base, func() {
 			lu := cm.FlattenLayout(doc, ccfg.MinHeadingLevel)
